@@ -206,6 +206,78 @@ def simulate(case):
             "out": "symbolic" if labels is None else "segments%d" % nseg}
 
 
+def wide_case(case):
+    """{'gate':G,'q':[..],'n':n}: registers of 7..11 qubits, where an index shift no longer fits a small integer type and a qubit distance exceeds anything the
+    small registers contain: lifted_matrix, to_unitary (n <= 10), apply and SymbolicSimulator against the bit-arithmetic embedding"""
+    from orquestra.quantum import circuits as C
+    from orquestra.quantum.runners.symbolic_simulator import SymbolicSimulator
+    n, q = case["n"], tuple(case["q"])
+    op = mk_gate(case["gate"])(*q)
+    exp = L.embed(_gate_matrix(jdump(case["gate"])), q, n)
+    r = {"ok": True, "nt": True, "ops": 0, "out": "n%d" % n}
+    vs = [dense_vec(n)] + [np.eye(2 ** n)[i] for i in sorted({0, 2 ** n - 1, (2 ** n) // 3, 1 << (n - 1 - q[0]), (1 << (n - 1 - q[-1])) | 1})]
+    for v in (vs if n <= 9 else vs[:3]):
+        r["ops"] += 1
+        got = np.asarray(op.apply(v), dtype=complex).reshape(-1)
+        if got.shape != v.shape or not np.allclose(got, exp @ v, atol=ATOL):
+            return {**r, **fail("apply(v) != embedded matrix @ v on %d qubits" % n, (exp @ v)[:16], got[:16], "wide:apply")}
+    if n <= 10:
+        Lm = num(op.lifted_matrix(n))
+        r["ops"] += 1
+        if Lm.shape != exp.shape or not np.allclose(Lm, exp, atol=ATOL):
+            return {**r, **fail("lifted_matrix(%d) is not the gate embedded on q" % n, exp[:4, :4], Lm[:4, :4], "wide:lifted")}
+        partner = C.T(q[0]) if case.get("partner") == "T" else C.X(n - 1 - q[0] if n - 1 - q[0] not in q else q[-1])
+        c = C.Circuit([partner, op], n_qubits=n)
+        U = num(c.to_unitary())
+        r["ops"] += 1
+        expU = exp @ L.embed(num(partner.gate.matrix), tuple(partner.qubit_indices), n)
+        if U.shape != expU.shape or not np.allclose(U, expU, atol=ATOL):
+            return {**r, **fail("to_unitary() on %d qubits differs from the ordered product of embedded gate matrices" % n, expU[:4, :4], U[:4, :4], "wide:to_unitary")}
+        wf = SymbolicSimulator().get_wavefunction(c)
+        got = np.asarray(wf.amplitudes, dtype=complex).reshape(-1)
+        r["ops"] += 1
+        if not np.allclose(got, expU[:, 0], atol=ATOL):
+            return {**r, **fail("SymbolicSimulator state on %d qubits != circuit matrix @ |0..0>" % n, expU[:16, 0], got[:16], "wide:sim")}
+    return r
+
+
+def sim_history(case):
+    """{'kind': 'symbolic'|'native'|'nonnative'|'mixed', 'calls': [[circuit index, init name], ...]}: ONE simulator object answers a history of
+    get_wavefunction calls (same circuit with different initial states, equal but distinct circuit objects, different circuits of one width):
+    every answer is the reference matrix of the circuit asked for, applied to the initial state asked for"""
+    from orquestra.quantum.runners.symbolic_simulator import SymbolicSimulator
+    n = case["n"]
+    pool = history_pool(n)
+    built = {}
+    labels_by_id, log = {}, []
+    sim = SymbolicSimulator() if case["kind"] == "symbolic" else _scripted_sim(labels_by_id, log)
+    init_by_name = dict(inits(n))
+    k = 0
+    for ci, init_name in case["calls"]:
+        desc = pool[ci]
+        c = built.get(ci) if case.get("reuse_objects", True) else None
+        if c is None:
+            c = mk_circuit(desc)
+            built[ci] = c
+            for j, o in enumerate(c.operations):
+                labels_by_id[id(o)] = {"native": True, "nonnative": False, "mixed": j % 2 == 0}.get(case["kind"], True)
+        init = init_by_name[init_name]
+        exp = ref_unitary(desc["ops"], n)
+        wf = sim.get_wavefunction(c) if init is None else sim.get_wavefunction(c, init.copy())
+        k += 1
+        v0 = np.eye(2 ** n)[0] if init is None else init
+        got = np.asarray(wf.amplitudes, dtype=complex).reshape(-1)
+        if not np.allclose(got, exp @ v0, atol=ATOL):
+            return {**fail("call %d of the history on one simulator object: state != matrix of the circuit asked for @ the initial state asked for (init=%s)" % (k, init_name),
+                           exp @ v0, got, "sim:history"), "ops": k}
+    return {"ok": True, "nt": len(case["calls"]) >= 2, "ops": k, "out": case["kind"]}
+
+
+def history_pool(n):
+    S = sim_ops(n)
+    return [{"ops": [S[1], S[0]], "n": n}, {"ops": [S[1], S[0]], "n": n}, {"ops": [S[0], S[1]], "n": n}, {"ops": [S[3], S[2]], "n": n}, {"ops": [], "n": n}, {"ops": [S[4]], "n": n}]
+
+
 def multiphase(case):
     """{'n':n,'thetas':[...],'i':basis index}: component k is multiplied by exp(i theta_k)"""
     from orquestra.quantum.circuits import MultiPhaseOperation
@@ -232,7 +304,7 @@ def empty_case(case):
     return r
 
 
-FUNCS = {"sim_single": simulate, "sim_sequences": simulate, "single_ops": single_op, "single_ops_symbolic": single_op, "sequences": sequence, "concat": concat, "simulators": simulate,
+FUNCS = {"wide": wide_case, "sim_history": sim_history, "sim_single": simulate, "sim_sequences": simulate, "single_ops": single_op, "single_ops_symbolic": single_op, "sequences": sequence, "concat": concat, "simulators": simulate,
          "multiphase": multiphase, "empty": empty_case}
 
 TH = 0.3
@@ -353,6 +425,29 @@ def run(run):
     secs.append(Section("simulators", cases, simulate, desc="every circuit of length <= %d x every native/non-native labeling x 5 initial states" % SL))
     cases = [{"n": n, "thetas": [0.1 + 0.37 * k * (1 if s == 0 else -1.3) for k in range(2 ** n)], "i": i} for n in (1, 2, 3) for s in (0, 1)
              for i in list(range(2 ** n)) + [-1]]
+    # one simulator object, every history of 2 (thorough: 3) calls over 6 circuits x 3 initial states
+    hcases = []
+    for kind in ("symbolic", "native", "nonnative", "mixed"):
+        calls = [[ci, nm] for ci in range(6) for nm in ("none", "e1", "dense")]
+        for ln in ((2, 3) if thorough else (2,)):
+            for combo in itertools.product(range(len(calls)) if ln == 2 else range(0, len(calls), 2), repeat=ln):
+                hcases.append({"kind": kind, "n": 2, "calls": [calls[i] for i in combo]})
+        hcases += [{"kind": kind, "n": 2, "calls": [[0, a], [0, b]], "reuse_objects": False} for a in ("none", "e1", "dense") for b in ("none", "e1", "dense")]
+    secs.append(Section("sim_history", hcases, sim_history, desc="one simulator object (bundled; base class all native / none native / alternating): every history of 2 calls over "
+                        "6 circuits (two of them equal) x 3 initial states - each answer belongs to the circuit and initial state asked for"))
+    # wide registers: index distances and shifts that no small register contains
+    wcases = []
+    asym2 = [G("CNOT"), G("custom2"), W("controlled", G("RZ", TH), k=1)]
+    for n in ((7, 9, 10) if not thorough else (7, 8, 9, 10, 11)):
+        pairs = [(0, n - 1), (n - 1, 0), (1, n - 2), (n - 1, n - 2), (0, 1), (n - 2, 0), (n // 2, 0), (n - 1, n // 2)]
+        for g in asym2:
+            wcases += [{"gate": g, "q": list(p), "n": n} for p in pairs]
+        wcases += [{"gate": G("custom1"), "q": [q], "n": n, "partner": "T"} for q in (0, n // 2, n - 1)]
+        for p in ((0, n // 2, n - 1), (n - 1, 0, n // 2), (n // 2, n - 1, 0), (n - 1, n - 2, 0)):
+            wcases.append({"gate": G("custom3"), "q": list(p), "n": n})
+            wcases.append({"gate": W("controlled", G("X"), k=2), "q": list(p), "n": n})
+    secs.append(Section("wide", wcases, wide_case, chunk=2, desc="registers of 7-10 (thorough 11) qubits: asymmetric 2- and 3-qubit gates on far-apart, descending and adjacent index tuples through apply / "
+                        "lifted_matrix / to_unitary / SymbolicSimulator (matrices up to 10 qubits)"))
     secs.append(Section("multiphase", cases, multiphase, desc="MultiPhaseOperation.apply on every basis state"))
     secs.append(Section("empty", [{"n": n} for n in (1, 2, 3, 5)], empty_case, desc="empty circuit = identity"))
     run.run_sections(secs)
